@@ -214,7 +214,7 @@ def TableOK : Prop := ∀ x ∈ cfg.prios, x.1 < F
 
 def RunA (a : A) (now : ℚ) : RPhase → Prop
   | .init q => q.time = now ∧ q.prio = URGENT ∧ a.tokens = 0 ∧ a.pend = [] ∧ (∀ f, a.items f = []) ∧ (∀ f, a.cnt f = 0) ∧
-      a.cur = none ∧ ∃ q' arr, a.src = .init q' arr
+      a.cur = none
   | .W _ => (a.tokens = 0 → ∀ f, f < F → a.items f = []) ∧ (a.tokens ≠ 0 → ∃ u, (u, 0) ∈ a.pend) ∧ a.cur = none
   | .K _ q => q.time = now ∧ q.prio = NORMAL ∧ a.cur = none
   | .H _ _ id q => q.time = now ∧ q.prio = NORMAL ∧ a.cur = none ∧ flow id < F
